@@ -1747,6 +1747,14 @@ class EAStorySwap(ElementAction):
             raise MosMergeError(
                 f"{self.__class__.__name__} error in {self.message_id} - story 2 not found"
             )
+        if story1 is story2:
+            raise MosMergeError(
+                f"{self.__class__.__name__} error in {self.message_id} - cannot swap a story with itself"
+            )
+        if story1_index > story2_index:
+            # re-insert in ascending index order so that both indices stay valid
+            story1, story2 = story2, story1
+            story1_index, story2_index = story2_index, story1_index
         remove_node(parent=ro.base_tag, node=story1)
         remove_node(parent=ro.base_tag, node=story2)
         insert_node(parent=ro.base_tag, node=story2, index=story1_index)
@@ -1820,6 +1828,14 @@ class EAItemSwap(ElementAction):
             raise MosMergeError(
                 f"{self.__class__.__name__} error in {self.message_id} - item 2 not found"
             )
+        if item1 is item2:
+            raise MosMergeError(
+                f"{self.__class__.__name__} error in {self.message_id} - cannot swap an item with itself"
+            )
+        if item1_index > item2_index:
+            # re-insert in ascending index order so that both indices stay valid
+            item1, item2 = item2, item1
+            item1_index, item2_index = item2_index, item1_index
         remove_node(parent=story, node=item1)
         remove_node(parent=story, node=item2)
         insert_node(parent=story, node=item2, index=item1_index)
